@@ -28,12 +28,15 @@ Data(d) == IF d = 0 THEN { Atom(x) : x \in Atoms } \cup { [t |-> "list", es |-> 
 (* "args" every atom is followed by an absent optional list (VALUE -> WORD [ARGS] | LIST | MAP), so that the    *)
 (* optional container is absent at the end of list items, map values and the whole text;                      *)
 (* "decls" a bracket-less ';' list of declarations  w = VALUE  with VALUE as in "args" (the absent optional    *)
-(* list ends a chain of productions); "baremap" a bracket-less map at the top (no pairs = the empty text = {})  *)
+(* list ends a chain of productions); "baremap" a bracket-less map at the top (no pairs = the empty text = {}); *)
+(* "rows" a bracketed ';' list whose items are bracket-less lists of words: [a, b; ; c] (an atom stands for the  *)
+(* row holding it, an empty list for an empty row)                                                             *)
 Opts == { [top |-> tp, delim |-> dl, afd |-> af, nullable |-> nu, mapafd |-> ma] :
-             tp \in {"value", "optional", "bare", "args", "decls", "baremap"}, dl \in BOOLEAN, af \in {"default", "yes", "no"}, nu \in BOOLEAN, ma \in BOOLEAN }
+             tp \in {"value", "optional", "bare", "args", "decls", "baremap", "rows"}, dl \in BOOLEAN, af \in {"default", "yes", "no"}, nu \in BOOLEAN, ma \in BOOLEAN }
 OptsOK(o) == /\ (o.afd = "yes" => o.delim) /\ (o.nullable => o.delim)
              /\ (o.top = "bare" => o.afd # "yes" /\ ~o.nullable)
              /\ (o.top = "baremap" => o.afd = "default" /\ ~o.nullable)
+             /\ (o.top = "rows" => o.afd = "default" /\ ~o.nullable /\ ~o.mapafd)
 FinalAllowed(o) == o.delim /\ o.afd # "no"
 
 RECURSIVE HasNone(_)
@@ -84,6 +87,8 @@ Choose == /\ phase = "opt" /\ phase' = "done"
                /\ (b => ~opt.nullable)       \* with nullable items "[a,]" is a list with an empty last item
                /\ (opt.top \in {"bare", "decls"} => d.t = "list")
                /\ (opt.top = "baremap" => d.t = "map")
+               /\ (opt.top = "rows" => /\ d.t = "list" /\ d.es # <<>> /\ d.es[Len(d.es)].t = "atom" /\ ~f /\ ~b
+                                       /\ \A i \in 1 .. Len(d.es) : d.es[i].t = "atom" \/ d.es[i] = [t |-> "list", es |-> <<>>])
                /\ datum' = d /\ fin' = f /\ bad' = b
           /\ UNCHANGED opt
 (* a bad rendering really contains a forbidden final delimiter somewhere *)
